@@ -407,6 +407,7 @@ def vxHandle (n : Nat) (i : Int) (pat kind : String) (a : Int) : String :=
     | "sib" => ver (if pf.isEmpty then pf else pf.set (an % pf.length) junk) i lf rt
     | "sibleaf" => ver (if pf.isEmpty then pf else pf.set (an % pf.length) lf) i lf rt
     | "idx" => ver pf a lf rt
+    | "idxpad" => ver pf a lf rt
     | "droplast" => ver pf.dropLast i lf rt
     | "dropfirst" => ver (pf.drop 1) i lf rt
     | "app" => ver (pf ++ [junk]) i lf rt
